@@ -449,3 +449,89 @@ func evalGuardCut(p *Prog, f *ssa.Function, atoms []Atom, spec resultSpec, sinks
 	}
 	return guardResult{true, fmt.Sprintf("%d instance(s) reject and cannot be bypassed", len(rejecting)), rejecting[0].If.Cond.Pos()}
 }
+
+// evalGuardAny: the atoms are alternative ways of establishing one fact (e.g. "the MAC verified", checked
+// once and retried once): with the passing edges of ALL instances cut, neither a successful return nor a
+// sink may be reachable from the entry.
+func evalGuardAny(p *Prog, f *ssa.Function, atoms []Atom, spec resultSpec, sinks []ssa.Instruction, pre map[edge]bool) guardResult {
+	if len(atoms) == 0 {
+		return guardResult{false, "no such check exists in the function", f.Pos()}
+	}
+	ex := successExits(f, spec)
+	cut := map[edge]bool{}
+	for e := range pre {
+		cut[e] = true
+	}
+	for _, a := range atoms {
+		b := a.If.Block()
+		if b.Succs[0] == b.Succs[1] {
+			return guardResult{false, "both branches of the test lead to the same block", a.If.Cond.Pos()}
+		}
+		cut[edge{b, b.Succs[a.PassSucc]}] = true
+	}
+	if ok, at := canReachSuccess(f.Blocks[0], nil, ex, cut); ok {
+		return guardResult{false, "a successful return at " + p.pos(lastPos(at)) + " is reachable on a path on which the check never passed", atoms[0].If.Cond.Pos()}
+	}
+	seen := reach([]*ssa.BasicBlock{f.Blocks[0]}, cut)
+	for _, s := range sinks {
+		if seen[s.Block()] {
+			return guardResult{false, "the guarded operation at " + p.pos(s.Pos()) + " can execute on a path on which the check never passed", s.Pos()}
+		}
+	}
+	return guardResult{true, fmt.Sprintf("%d instance(s); success only after one of them passed", len(atoms)), atoms[0].If.Cond.Pos()}
+}
+
+// errValueOf: v is the error result of a call accepted by match, or a phi of such values
+func errValueOf(v ssa.Value, match func(*ssa.Call) bool, depth int) bool {
+	if depth > 4 {
+		return false
+	}
+	switch x := v.(type) {
+	case *ssa.Call:
+		return match(x)
+	case *ssa.Extract:
+		c, ok := x.Tuple.(*ssa.Call)
+		return ok && match(c)
+	case *ssa.Phi:
+		n := 0
+		for _, e := range x.Edges {
+			if isNilConst(e) {
+				continue
+			}
+			if !errValueOf(e, match, depth+1) {
+				return false
+			}
+			n++
+		}
+		return n > 0
+	}
+	return false
+}
+
+// errCheckAtomsPhi: like errCheckAtoms but also accepts tests on joins of such errors
+func errCheckAtomsPhi(f *ssa.Function, match func(*ssa.Call) bool, desc string) []Atom {
+	var out []Atom
+	for _, ifi := range ifsOf(f) {
+		bo, ok := ifi.Cond.(*ssa.BinOp)
+		if !ok || (bo.Op != token.NEQ && bo.Op != token.EQL) {
+			continue
+		}
+		var v ssa.Value
+		if isNilConst(bo.Y) {
+			v = bo.X
+		} else if isNilConst(bo.X) {
+			v = bo.Y
+		} else {
+			continue
+		}
+		if !errValueOf(v, match, 0) {
+			continue
+		}
+		pass := 1
+		if bo.Op == token.EQL {
+			pass = 0
+		}
+		out = append(out, Atom{ifi, pass, desc})
+	}
+	return out
+}
